@@ -227,13 +227,19 @@ fn guarded_block<T: Real + Elem>(ctx: &mut Ctx, lens: &[usize]) {
 }
 
 pub fn run_c03(ctx: &mut Ctx) {
-    let (n_max, s_max) = if ctx.quick() { (256, 1 << 14) } else { (2048, 1 << 17) };
+    let (n_max, s_max) = if crate::ctx::light() {
+        (if ctx.quick() { 72 } else { 300 }, 0)
+    } else if ctx.quick() {
+        (256, 1 << 14)
+    } else {
+        (2048, 1 << 17)
+    };
     let mut item = 0;
     let mut all = shape_lens(n_max, s_max);
     // Rader-friendly primes above 2^16 (index arithmetic of the SIMD gather kernels changes regime there), a sample in quick
     let (plo, phi, step) = if ctx.quick() { (1u64 << 16, 1u64 << 17, 4) } else { (1u64 << 16, 1u64 << 19, 1) };
     for (i, p) in rader_primes(plo, phi).into_iter().enumerate() {
-        if i % step == 0 {
+        if i % step == 0 && !crate::ctx::light() {
             all.push(vec![p as usize]);
         }
     }
